@@ -21,13 +21,29 @@ FAULTS = ["unavailable", "stale", "closed", "reg_fail", "reg_half", "pub_fail", 
 def features(b):
     """what a behaviour exercises (used to pick a diverse subset)"""
     f = set()
+    previous_flip = False
     for s in b["steps"]:
         if s["a"] == "Tick" and s.get("fault", "none") != "none":
             f.add("fault:" + s["fault"])
         if s["a"] == "Restart":
             f.add("restart@" + s.get("at", "idle"))
-        if s["a"] == "EpochUp" and s.get("during"):
-            f.add("turn")
+        if s["a"] == "EpochUp":
+            if s.get("during"):
+                f.add("turn")
+            if s.get("flip"):
+                f.add("params_change")
+                if previous_flip:
+                    f.add("params_change_consecutive_epochs")
+            previous_flip = bool(s.get("flip"))
+    # a signature made with a key that embeds the second generation of parameters, and one made in the epoch before
+    # the aggregator's parameters change (its message carries the new ones)
+    gens = dict((r, g) for r, g in b["expect"]["agg_gens"])
+    for en in b["expect"]["published"]:
+        e = en[1]
+        if gens.get(e - 1) == 2:
+            f.add("signed_with_changed_params")
+        if gens.get(e) and gens.get(e - 1) and gens[e] != gens[e - 1]:
+            f.add("message_carries_changed_next_params")
     if b["expect"]["lagged"]:
         f.add("lagged")
     return f
@@ -55,7 +71,11 @@ def select(behaviours, n):
         rest = sorted((i for i in range(len(behaviours)) if i not in taken),
                       key=lambda i: (-len(behaviours[i]["expect"]["published"]), i))
         chosen += rest[: n - len(chosen)]
-    return [behaviours[i] for i in chosen], seen
+    counts = {}
+    for i in chosen:
+        for f in features(behaviours[i]):
+            counts[f] = counts.get(f, 0) + 1
+    return [behaviours[i] for i in chosen], counts
 
 
 def analyse(c, name, trace_path, expectations=None):
@@ -93,6 +113,9 @@ def analyse(c, name, trace_path, expectations=None):
         "signatures_republished_same_value": republished, "signatures_not_acceptable(known finding)": bad,
         "keys_registered": sum(len(o["regs"]) for o in final.values()),
         "registrations_superseded(last wins)": sum(max(0, o["nreg_requests"] - len(o["regs"])) for o in final.values()),
+        "signatures_under_second_parameter_generation": sum(
+            1 for o in final.values() for s in o["sigs"]
+            if any(p["epoch"] == s["ee"] - 1 and p["gen"] == 2 for p in o["params"])),
         "progress_events": sum(1 for r in recs if r["ev"] == "Progress"),
         "progress_ok": sum(1 for r in recs if r["ev"] == "Progress" and r["signed_again"]),
     })
@@ -132,7 +155,9 @@ def run(tier, seed):
         "the aggregator is a recording double with the routes and message types of the repository's FakeAggregatorHttpServer; "
         "it keeps the LAST registration per (recording epoch, party) like the real store, follows the protocol's epoch "
         "offsets with its own literals and serves closed rounds consistently (registrations of other operators only go to "
-        "the open round)",
+        "the open round); it keeps one network configuration per recording epoch, created when it enters the previous "
+        "epoch, whose protocol parameters belong to one of two really different generations (k=2,m=30,phi_f=0.95 / "
+        "k=2,m=100,phi_f=0.5) and never change once created",
         "one external stimulus at a time; a process stop inside a cycle is realised as the aggregator fault that leaves the "
         "same persisted state on both sides followed by a restart (no stop points exist in the signer); the only "
         "intra-cycle interleaving exercised is the chain epoch turning right after the epoch settings were served",
@@ -165,7 +190,10 @@ def run(tier, seed):
     c.cov["stages"]["MC:SIM+GEN"].update({"behaviours": len(behaviours), "behaviours_replayed": len(chosen),
                                           "features_in_replayed": dict(sorted(feats.items()))})
     for need in ["turn"] + (["lagged"] if unfixed else []) + ["restart@registered", "restart@published", "fault:reg_half",
-                                                                "fault:pub_half", "fault:closed", "fault:stale"]:
+                                                                "fault:pub_half", "fault:closed", "fault:stale",
+                                                                "params_change", "params_change_consecutive_epochs",
+                                                                "signed_with_changed_params",
+                                                                "message_carries_changed_next_params"]:
         if feats.get(need, 0) == 0:
             raise vlib.ToolError(f"GEN: vacuity -- no replayed behaviour with {need}")
     # runs: the TLC schedules in chunks (one trace per chunk keeps the validation inputs small), then the seeded driver
@@ -188,6 +216,7 @@ def run(tier, seed):
     total_events = 0
     distinct = set()
     hits = {"tlc": {}, "seeded": {}}
+    changes = {"tlc": 0, "seeded": 0}
     for name, kind, args, exp in runs:
         t = os.path.join(c.work, f"{name}.trace.ndjson")
         s = c.run_harness("c20_signer", ["--out", t, "--work", os.path.join(c.work, "signer_" + name), "--jobs", 12] + args,
@@ -196,13 +225,16 @@ def run(tier, seed):
         n, d = analyse(c, name, t, exp)
         total_events += n
         distinct |= d
+        changes[kind] += (s or {}).get("parameter_changes", 0)
         for k, v in (s or {}).get("faults_exercised", {}).items():
             hits[kind][k] = hits[kind].get(k, 0) + v
         r = c.validate("signer", "SignerTrace", "SignerTrace.cfg", t, name=name, timeout=3000, heap="8g")
         if th and r["accepted"]:
             os.remove(t)        # (thorough traces are large; a rejected one is kept as the replay)
     c.cov["faults_exercised"] = hits
-    vacuous = [f"{kind} runs: aggregator fault {fault} never exercised" for kind in hits for fault in FAULTS + ["turn"]
+    c.cov["parameter_changes_in_runs"] = changes
+    vacuous = [f"{kind} runs: the protocol parameters never changed" for kind in changes if changes[kind] == 0]
+    vacuous += [f"{kind} runs: aggregator fault {fault} never exercised" for kind in hits for fault in FAULTS + ["turn"]
                if hits[kind].get(fault, 0) == 0]
     if vacuous and not c.violations:
         # (a signer that never signs exercises no publication fault: the contract's progress clause reports that first)
